@@ -263,6 +263,74 @@ def r5_fixed_size(chk, prog, eng, rule='R5'):
         chk.require(got >= 1, 'no bounds obligation was generated for %s' % f.key)
 
 
+def r7_nullable_owners(chk, prog, rule='R7'):
+    """no null dereference of an owning pointer member that may be empty: for every std::unique_ptr member of the
+    argument classes that is tested for null somewhere (so the code itself believes it can be empty - e.g. the
+    cardinality object can be removed with setCardinality( nullptr)), every operator-> / operator* on it is reachable
+    only through an edge on which such a test said "not null" """
+    from ..rules import implied_edges
+    owners = {}
+    for cn, c in prog.classes.items():
+        if cn.startswith('celma::prog_args'):
+            for fl in c['fields']:
+                if fl['t'].startswith('std::unique_ptr<'):
+                    owners.setdefault(fl['name'], cn)
+    chk.require(owners, 'no std::unique_ptr members found in the argument classes')
+
+    def make_atom(field):
+        def mentions(n):
+            return any(x.get('k') == 'MemberExpr' and x.get('ref', {}).get('name') == field for x in walk(n))
+
+        def nonnull(c):
+            c = strip_all_casts(c)
+            while c.get('k') == 'ParenExpr':
+                c = strip_all_casts(children(c)[0])
+            k = c.get('k')
+            if k == 'BinaryOperator' and c.get('op') == '!=':
+                a, b = children(c)
+
+                def zero(e):
+                    e0 = strip_all_casts(e)
+                    return e0.get('k') in ('CXXNullPtrLiteralExpr', 'GNUNullExpr') or e0.get('val') == 0 or \
+                        e.get('cv') == 0
+                return (mentions(a) and zero(b)) or (mentions(b) and zero(a))
+            if k in CALL_KINDS and (c.get('callee') or '').endswith(('operator bool', 'operator!=')) and mentions(c):
+                return True
+            return k == 'MemberExpr' and c.get('ref', {}).get('name') == field
+        return nonnull, mentions
+    total = 0
+    for field in sorted(owners):
+        nonnull, mentions = make_atom(field)
+        tested = 0
+        sites = []
+        for f in prog.functions:
+            if f.body is None:
+                continue
+            ds = [x for x in f.walk() if x.get('k') in CALL_KINDS and 'unique_ptr' in (x.get('callee') or '') and
+                  (x.get('callee') or '').split('::')[-1] in ('operator->', 'operator*') and mentions(x)]
+            edges = implied_edges(f, nonnull, True)
+            tested += len(edges)
+            if ds:
+                sites.append((f, ds, edges))
+        if not tested:
+            continue            # never tested for null anywhere: treated as always set
+        seen_lines = set()
+        for f, ds, edges in sites:
+            cfg = f.cfg
+            reach = cfg.reach(cfg.entry_pos(), blocked_edges=edges)
+            for d in ds:
+                key = (f.file, d.get('l'))
+                if key in seen_lines:
+                    continue        # instantiations of one template line
+                seen_lines.add(key)
+                total += 1
+                chk.check(cfg.position(d) not in reach, rule, f.name, 'the possibly empty owner %s is dereferenced '
+                          'only after a test that it is set' % field, f.loc(d),
+                          'the dereference is reachable without passing a "not null" test of %s' % field)
+    chk.require(total >= 5, 'dereferences of nullable owners found: %d' % total)
+    return total
+
+
 def run(chk):
     drv = os.path.join(VERIF, 'drivers', 'prog_args_dest.cpp')
     units = units_matching('library/prog_args/', 'library/appl/arg_string_2_array.cpp', 'library/common/') + [drv]
@@ -297,6 +365,8 @@ def run(chk):
     r2_forms(chk, prog, eng)
     r4_exceptions(chk, prog)
     r5_fixed_size(chk, prog, eng)
+    chk.rule('R7', 'possibly empty owning pointers are dereferenced only after a null test', 5)
+    r7_nullable_owners(chk, prog)
     chk.rule('R6', 'ArgListIterator: the cursor invariant (four cases) is established and preserved; every argv[ i] '
              'and word[ j] access is inside', 40)
     from . import c04_cursor
